@@ -1,6 +1,8 @@
 // Verus unit: the field-by-field statistics comparison (macro validate_fields!, expanded mechanically
 // from the macro text and the invocation in /repo) is complete for the all-integer structs:
-// Ok <=> every field equal.
+// Ok <=> every field equal. TriggerStats::validate_other rebuilds the file's value through the 20 getters, which are
+// extracted too (kind `getters`: each returns the field it is named after), so a getter reading another field -
+// a drift that would go unnoticed only when the two counters differ - fails here.
 use vstd::prelude::*;
 verus! {
 
@@ -10,6 +12,10 @@ fn opaque_msg() -> String { String::new() }
 //@EXTRACT trigger_stats_struct
 
 impl TriggerStats {
+//@EXTRACT trigger_stats_getters
+
+//@EXTRACT trigger_stats_validate_other
+
 //@EXTRACT trigger_stats_validate_fields
 }
 
